@@ -226,6 +226,16 @@ Submit(t, obsres) ==
      ELSE UNCHANGED <<utxo, zu, zd, total, pool>> /\ Log([op |-> "submit", t |-> t, res |-> "stale"])
   /\ UNCHANGED <<blk, n, ltip, ptr, irr, dev, applied, pruned>>
 
+(* Trace validation: a submission outside the quantifier (the transaction is already on the pointer's chain or on the
+   main chain - it arises when the real miner packed other transactions than the generator assumed) is not judged: a
+   refusal changes nothing; after an admission the rest of the behaviour is not judged (marker in dev). *)
+SubmitAny(t, obsres) ==
+  IF ~OnChain(t, ptr) /\ ~Confirmed(t) THEN Submit(t, obsres)
+  ELSE /\ t \in Txs
+       /\ UNCHANGED <<blk, n, ltip, ptr, utxo, zu, zd, total, irr, pool, applied, pruned>>
+       /\ dev' = IF obsres = "admit" THEN dev \cup {"outside-quantifier"} ELSE dev
+       /\ Log([op |-> "submit", t |-> t, res |-> obsres])
+
 (* ---- MkBlock: a peer's block is formatted and confirmed by the ledger -------------------------- *)
 NoDupSeq(s) == \A i, j \in DOMAIN s : i # j => s[i] # s[j]
 TxSeqs == UNION {{s \in [1..k -> Txs] : NoDupSeq(s)} : k \in 0..MaxTxPerBlock}
